@@ -1,5 +1,183 @@
-import Spec.Rev
-import Model.Rev.Heads
-/-! # C02 (theorems: work in progress) -/
+import Lemmas.Rev.PlanFacts
+import Props.C01
+/-!
+# C02 — the downgrade plan removes exactly the applied dependents, children first
+
+About `Model.Rev.downgradeRevs` (mirror of `ScriptDirectory._downgrade_revs` →
+`_collect_downgrade_revisions` + `_topological_sort`).
+-/
 namespace C02
+open Model.Rev Spec.Rev Lemmas.Rev C01
+
+/-- `x` builds on one of `roots`: it is one of them or descends from / depends on one -/
+def BuildsOn (m : LMap) (roots : List Id) (x : Id) : Prop := ∃ r ∈ roots, Reach m.allDownOf x r
+
+/-- `plan` removes the applied revisions that build on `roots` from a database at `cur` -/
+structure DowngradePlan (m : LMap) (cur roots plan : List Id) : Prop where
+  nodup : plan.Nodup
+  /-- exactly the applied revisions that build on the roots -/
+  exact : ∀ x, x ∈ plan ↔ BuildsOn m roots x ∧ Requires m cur x
+  /-- no revision is downgraded while an applied revision that needs it remains -/
+  order : ∀ pre x post, plan = pre ++ x :: post →
+    ∀ c, c ∈ m.ids → x ∈ m.allDownOf c → Requires m cur c → c ∈ pre
+
+theorem allNextrev_nil {m : LMap} (L : Loaded m) (x : Id) (hx : x ∉ m.ids) : m.allNextrev x = [] := by
+  apply List.eq_nil_iff_forall_not_mem.mpr
+  intro y hy
+  have := (allNextrev_iff m L.ids_nodup x y).mp hy
+  exact hx (L.refs_closed y x this.2)
+
+/-- children-edges are the inverse of parent-edges -/
+theorem reach_inv {m : LMap} (L : Loaded m) (a b : Id) :
+    Reach m.allNextrev a b ↔ Reach m.allDownOf b a := by
+  constructor
+  · intro h
+    induction h with
+    | refl _ => exact Reach.refl _
+    | step hs _ ih =>
+      have := (allNextrev_iff m L.ids_nodup _ _).mp hs
+      exact Reach.trans _ ih (Reach.single _ this.2)
+  · intro h
+    induction h with
+    | refl _ => exact Reach.refl _
+    | @step x p c hs _ ih =>
+      have hx : x ∈ m.ids := by
+        apply Classical.byContradiction
+        intro hn; rw [allDownOf_nil m x hn] at hs; simp at hs
+      have : x ∈ m.allNextrev p := (allNextrev_iff m L.ids_nodup p x).mpr ⟨hx, hs⟩
+      exact Reach.trans _ ih (Reach.single _ this)
+
+theorem mem_descendants_iff {m : LMap} (L : Loaded m) (roots : List Id) (x : Id) :
+    x ∈ m.descendants roots ↔ BuildsOn m roots x := by
+  unfold LMap.descendants LMap.closure BuildsOn
+  rw [mem_closureOf_iff m.allNextrev m.ids roots (fun y hy => allNextrev_nil L y hy)]
+  constructor
+  · rintro ⟨r, hr, h⟩; exact ⟨r, hr, (reach_inv L r x).mp h⟩
+  · rintro ⟨r, hr, h⟩; exact ⟨r, hr, (reach_inv L r x).mpr h⟩
+
+theorem mem_downgradeSet {m : LMap} (L : Loaded m) (roots heads : List Id) (x : Id) :
+    x ∈ downgradeSet m roots heads ↔ BuildsOn m roots x ∧ Requires m heads x := by
+  unfold downgradeSet
+  rw [mem_dedupe, List.mem_filter, mem_descendants_iff L, decide_eq_true_eq, mem_ancestors_iff,
+    requires_iff_norm L]
+
+/-- the set/sort core: for any roots and any resolved current heads -/
+theorem plan_of_set {m : LMap} (L : Loaded m) (roots heads : List Id) :
+    ∃ plan, topoSort m (downgradeSet m roots heads) heads = .ok plan ∧ DowngradePlan m heads roots plan := by
+  have hset := mem_downgradeSet L roots heads
+  have hconv : Convex m.normDownOf (dedupe (downgradeSet m roots heads)) := by
+    intro t c p ht hc hcp hpt
+    rw [mem_dedupe] at ht hc ⊢
+    obtain ⟨⟨r, hr, htr⟩, _⟩ := (hset t).mp ht
+    obtain ⟨_, hcreq⟩ := (hset c).mp hc
+    obtain ⟨hd, hhd, hhdc⟩ := (requires_iff_norm L heads c).mp hcreq
+    refine (hset p).mpr ⟨⟨r, hr, ?_⟩, (requires_iff_norm L heads p).mpr ⟨hd, hhd, Reach.trans _ hhdc hcp⟩⟩
+    exact Reach.trans _ ((reach_norm_iff_all L p t).mp hpt) htr
+  have hcov : ∀ t ∈ downgradeSet m roots heads, ∃ hd ∈ heads, hd ∈ downgradeSet m roots heads ∧
+      Reach m.normDownOf hd t := by
+    intro t ht
+    obtain ⟨⟨r, hr, htr⟩, hreq⟩ := (hset t).mp ht
+    obtain ⟨hd, hhd, hhdt⟩ := (requires_iff_norm L heads t).mp hreq
+    refine ⟨hd, hhd, (hset hd).mpr ⟨⟨r, hr, ?_⟩, ⟨hd, hhd, Reach.refl _⟩⟩, hhdt⟩
+    exact Reach.trans _ ((reach_norm_iff_all L hd t).mp hhdt) htr
+  obtain ⟨plan, hs, hnd, hmem, hpw⟩ := topoSort_ok L _ heads hconv hcov
+  obtain ⟨rank, hrank⟩ := L.ranked
+  refine ⟨plan, hs, { nodup := hnd, exact := fun x => by rw [hmem, hset], order := ?_ }⟩
+  intro pre x post hplan c hcids hxc hcreq
+  have hx : x ∈ downgradeSet m roots heads := by rw [← hmem, hplan]; simp
+  obtain ⟨⟨r, hr, hxr⟩, _⟩ := (hset x).mp hx
+  have hcset : c ∈ downgradeSet m roots heads :=
+    (hset c).mpr ⟨⟨r, hr, Reach.step hxc hxr⟩, hcreq⟩
+  have hcplan : c ∈ pre ++ x :: post := by rw [← hplan, hmem]; exact hcset
+  have hne : c ≠ x := by
+    intro e; subst e
+    have := hrank _ _ hxc; omega
+  have hcx : Reach m.normDownOf c x := (reach_norm_iff_all L c x).mpr (Reach.single _ hxc)
+  rcases List.mem_append.mp hcplan with h | h
+  · exact h
+  · rcases List.mem_cons.mp h with h | h
+    · exact absurd h hne
+    · rw [hplan, List.pairwise_append] at hpw
+      have hp2 := List.pairwise_cons.mp hpw.2.1
+      exact absurd ⟨hcx, hne⟩ (hp2.1 c h)
+
+/-- **C02.** Whenever `downgrade` produces a plan: the target resolved, the rows resolved to
+`cur`, and the plan is exactly the applied revisions that build on the roots (the target's
+down-revision children, or every revision without down-revision for `base`, narrowed to the
+named branch as `downgradeRoots` says), each once, children first. -/
+theorem plan {h : Hist} {o : LoadOpts} {m : LMap} (hl : load h o = .ok m)
+    (hu : (h.map (·.id)).Nodup) (hd : ∀ r ∈ h, ∀ d ∈ r.down, d ∈ h.map (·.id))
+    (rows : List Id) (target : String) (plan : List Id)
+    (hp : downgradeRevs m rows target = .ok plan) :
+    ∃ label tgt roots cur, parseDowngradeTarget m rows target = .ok (label, tgt) ∧
+      downgradeRoots m label tgt = .ok roots ∧ resolveRows m rows = .ok cur ∧
+      DowngradePlan m cur roots plan ∧
+      (∀ t, tgt = some t → plan = [] → t ∈ cur) := by
+  have L := loaded_of_load hl hu hd
+  unfold downgradeRevs collectDowngrade at hp
+  simp only [bind, Except.bind] at hp
+  split at hp
+  · simp at hp
+  · rename_i v hv
+    split at hv
+    · simp at hv
+    · rename_i lt hlt
+      obtain ⟨label, tgt⟩ := lt
+      split at hv
+      · simp at hv
+      · rename_i roots hroots
+        split at hv
+        · simp at hv
+        · rename_i cur hcur
+          obtain ⟨plan', hs, hplan⟩ := plan_of_set L roots cur
+          cases tgt with
+          | none =>
+            simp only [pure, Except.pure, Except.ok.injEq] at hv
+            subst hv
+            simp only [hs, Except.ok.injEq] at hp
+            subst hp
+            exact ⟨label, none, roots, cur, hlt, hroots, hcur, hplan, by simp⟩
+          | some t =>
+            simp only at hv
+            split at hv
+            · simp [throw, throwThe, MonadExceptOf.throw] at hv
+            · rename_i hcond
+              simp only [pure, Except.pure, Except.ok.injEq] at hv
+              subst hv
+              simp only [hs, Except.ok.injEq] at hp
+              subst hp
+              refine ⟨label, some t, roots, cur, hlt, hroots, hcur, hplan, ?_⟩
+              intro t' ht' hempty
+              cases ht'
+              apply Classical.byContradiction
+              intro hnt
+              apply hcond
+              have : downgradeSet m roots cur = [] := by
+                apply List.eq_nil_iff_forall_not_mem.mpr
+                intro x hx
+                have := (hplan.exact x).mpr ((mem_downgradeSet L roots cur x).mp hx)
+                rw [hempty] at this; simp at this
+              simp [this, hnt]
+
+/-- **The target and its own prerequisites are never downgraded** (roots = down-revision
+children of the target). -/
+theorem target_safe {m : LMap} (L : Loaded m) (t : Id) (roots cur plan : List Id)
+    (hroots : ∀ r ∈ roots, r ∈ m.nextrev t) (hplan : DowngradePlan m cur roots plan) :
+    ∀ x ∈ plan, ¬ Reach m.allDownOf t x := by
+  intro x hx hreach
+  obtain ⟨⟨r, hr, hxr⟩, _⟩ := (hplan.exact x).mp hx
+  have hrt := (nextrev_iff m L.ids_nodup t r).mp (hroots r hr)
+  have htr : t ∈ m.allDownOf r := L.norm_sub_all r t (L.down_sub_norm r t hrt.2)
+  obtain ⟨rank, hrank⟩ := L.ranked
+  have h1 := reach_rank_le' hrank (Reach.trans _ hreach hxr)
+  have h2 := hrank r t htr
+  omega
+
+/-! ### non-vacuity -/
+
+example : okIs ((load demo).bind (fun m => downgradeRevs m ["d", "e"] "a")) ["d", "b", "e", "c"] = true := by
+  decide +kernel
+example : okIs ((load demo).bind (fun m => downgradeRevs m ["d", "e"] "lbl@base")) ["d", "b", "e", "c", "a"] = true := by
+  decide +kernel
+
 end C02
